@@ -142,6 +142,35 @@ def main():
             if isinstance(inst, objs[b]) != e:
                 viol.append(['lattice', f"isinstance({a}(), {b}) is {not e}, documented lattice says {e}"])
 
+    # ---- the Python spellings bool / int are aliases of the wrapped boolean / Integer types: one canonical class each
+    try:
+        from cohdl import Integer
+        from cohdl._core import _Boolean
+        alias_pairs = [(bool, _Boolean, 'bool'), (int, Integer, 'int')]
+        order = list(quals.items())
+        rnd.shuffle(order)
+        for qn, Q in order:
+            for py, wrapped, nm in (alias_pairs if rnd.random() < 0.5 else alias_pairs[::-1]):
+                first, second = (py, wrapped) if rnd.random() < 0.5 else (wrapped, py)
+                a_cls, b_cls = Q[first], Q[second]
+                cnt['identity'] += 1
+                if a_cls is not b_cls:
+                    viol.append(['not-canonical', f"{qn}[{nm}] and {qn}[{wrapped.__name__}] are different class objects"])
+                inst = Q[py](1)
+                cnt['lattice'] += 2
+                if type(inst) is not Q[wrapped] or not isinstance(inst, Q[py]):
+                    viol.append(['lattice', f"type({qn}[{nm}](1)) is not {qn}[{wrapped.__name__}]"])
+        for d in dirs:
+            for py, wrapped, nm in alias_pairs:
+                cnt['identity'] += 1
+                if Port[py, d] is not Port[wrapped, d]:
+                    viol.append(['not-canonical', f"Port[{nm}, {d}] and Port[{wrapped.__name__}, {d}] are different class objects"])
+                cnt['lattice'] += 1
+                if not issubclass(Port[wrapped, d], Signal[py]):
+                    viol.append(['lattice', f"Port[{wrapped.__name__}, {d}] is not a subclass of Signal[{nm}]"])
+    except ImportError:
+        pass
+
     # ---- views alias storage, keep root and qualifier
     for _ in range(12):
         kq = rnd.choice(['Signal', 'Variable'])
